@@ -165,7 +165,7 @@ def run(ctx, prop):
         if h and h[-1][0] not in ('Restart',):
             h.append(('Restart', []))
         hist.append(('tlc', h))
-    for _ in range(60 if ctx.quick else 1500):
+    for _ in range(300 if ctx.quick else 3000):
         h = mc.gen_random(scn, rng, rng.choice([8, 12, 16]))
         hist.append(('rnd', h))
         if prop == 'C10' or not ctx.quick:
